@@ -3,12 +3,12 @@
    is unchanged by changing the amount of blank space where there is some, by inserting blank space
    at a line end / text end / next to blank space / before a comment, and by appending a comment to
    a line; integer literals of equal value in another radix convert to the same number (C08).
-   The parser level (the parser looks at kinds and texts only; extra Eol tokens at statement
-   boundaries only shift `line`) is validated by the pairwise layout check, see DESIGN.md.
+   Parser level (proofs/ParserLayoutProof.v, ParserBlankLineProof.v): the parser looks at kinds and
+   texts only (C20_parse_layout); an inserted blank line only shifts `line` of the rows below it.
    Property theorems only; proofs in proofs/LexerProof.v, RadixProof.v. *)
 From DTR Require Import Prelude I64 Ast FramedMap Lexer Parser.
 From DTR Require Import Generated GeneratedTables.
-From DTR.proofs Require Import LexerProof RadixProof TablesProof.
+From DTR.proofs Require Import LexerProof RadixProof TablesProof ParserProof ParserLinesProof ParserLayoutProof ParserBlankLineProof.
 From Coq Require Import String.
 Local Open Scope N_scope.
 
@@ -60,6 +60,105 @@ Theorem C20_punctuation_is_the_source : forallb (fun p =>
     end) gen_punct = true.
 Proof. exact punct_tokens_lexed. Qed.
 
+(* THE parser-level property: two texts with the same header names, the same line of the first body line and the same token view (kinds and texts) of their bodies parse alike: same statements incl. lines, same names read / clocked / declared, or the same kind of error *)
+Theorem C20_parse_layout :
+  forall (s1 s2 : text) (h1 h2 : header),
+  parse_header s1 = Ok h1 ->
+  parse_header s2 = Ok h2 ->
+  h_names h1 = h_names h2 ->
+  h_line h1 = h_line h2 ->
+  lex_view (h_rest h1) = lex_view (h_rest h2) ->
+  match parse s1 with
+  | Ok p1 =>
+  match parse s2 with
+  | Ok p2 =>
+  p_stmts p1 = p_stmts p2 /\
+  p_signals p1 = p_signals p2 /\
+  map fst (p_expected_inputs p1) = map fst (p_expected_inputs p2) /\
+  map fst (p_read_outputs p1) = map fst (p_read_outputs p2) /\
+  map (fun v : name * expr * span => fst v) (p_virtuals p1) =
+  map (fun v : name * expr * span => fst v) (p_virtuals p2)
+  | _ => False
+  end
+  | Err e1 => match parse s2 with
+  | Err e2 => pe_kind e1 = pe_kind e2
+  | _ => False
+  end
+  | _ => False
+  end.
+Proof. exact C20_parse_layout. Qed.
+
+(* the parser never looks at spans (st_eqv: same token view, same bookkeeping up to spans) *)
+Theorem C20_block_layout :
+  forall (il1 il2 : N) (hdr : list name) (fuel : nat) (end_token : option tk) 
+  (block : list stmt) (st1 st2 : pstate),
+  st_eqv st1 st2 ->
+  res_eqv eq (parse_block_loop il1 hdr fuel end_token block st1)
+  (parse_block_loop il2 hdr fuel end_token block st2).
+Proof. exact block_layout. Qed.
+
+(* inserting a blank line right after the header: every row line grows by one, nothing else changes *)
+Theorem C20_blank_line_at_start :
+  forall (s1 s2 : text) (h1 h2 : header),
+  parse_header s1 = Ok h1 ->
+  parse_header s2 = Ok h2 ->
+  h_names h1 = h_names h2 ->
+  h_line h1 = h_line h2 ->
+  h_rest h2 = 10%N :: h_rest h1 ->
+  match parse s1 with
+  | Ok p1 =>
+  match parse s2 with
+  | Ok p2 =>
+  p_stmts p2 = bump_block (h_line h1) (p_stmts p1) /\
+  p_signals p2 = p_signals p1 /\
+  map fst (p_expected_inputs p2) = map fst (p_expected_inputs p1) /\
+  map fst (p_read_outputs p2) = map fst (p_read_outputs p1) /\
+  map (fun v : name * expr * span => fst v) (p_virtuals p2) =
+  map (fun v : name * expr * span => fst v) (p_virtuals p1)
+  | _ => False
+  end
+  | Err e1 => match parse s2 with
+  | Err e2 => pe_kind e1 = pe_kind e2
+  | _ => False
+  end
+  | _ => False
+  end.
+Proof. exact C20_blank_line_at_start. Qed.
+
+(* inserting a blank line after any line end of the body: the lines of the rows below it grow by one, nothing else changes *)
+Theorem C20_blank_line_after_newline :
+  forall (s1 s2 : text) (h1 h2 : header) (u v : list N),
+  parse_header s1 = Ok h1 ->
+  parse_header s2 = Ok h2 ->
+  h_names h1 = h_names h2 ->
+  h_line h1 = h_line h2 ->
+  h_rest h1 = u ++ 10%N :: v ->
+  h_rest h2 = u ++ 10%N :: 10%N :: v ->
+  match parse s1 with
+  | Ok p1 =>
+  match parse s2 with
+  | Ok p2 =>
+  p_stmts p2 = bump_block (h_line h1 + N.of_nat (count_nl u) + 1) (p_stmts p1) /\
+  p_signals p2 = p_signals p1 /\
+  map fst (p_expected_inputs p2) = map fst (p_expected_inputs p1) /\
+  map fst (p_read_outputs p2) = map fst (p_read_outputs p1) /\
+  map (fun v0 : name * expr * span => fst v0) (p_virtuals p2) =
+  map (fun v0 : name * expr * span => fst v0) (p_virtuals p1)
+  | _ => False
+  end
+  | Err e1 => match parse s2 with
+  | Err e2 => pe_kind e1 = pe_kind e2
+  | _ => False
+  end
+  | _ => False
+  end.
+Proof. exact C20_blank_line_after_newline. Qed.
+
+
+
+Check C20_parse_layout.
 Check C20_blank_run_irrelevant.
 Print Assumptions C20_blank_run_irrelevant.
 Print Assumptions C20_comment_irrelevant.
+Print Assumptions C20_parse_layout.
+Print Assumptions C20_blank_line_after_newline.
